@@ -98,4 +98,11 @@ CHECKS = {
         "design_ref": "DESIGN.md 2/C18",
         "note": "Open known finding K-C18-subsecond-record-timestamps (reader truncates to seconds, pinned by an existing test): excluded from the main identity search by construction and probed separately.",
     },
+    "C10": {
+        "level": "exploration",
+        "technique": "property-based structure-aware mutation of reference encodings + random bytes; coverage-guided fuzzing (atheris/libFuzzer) in thorough; counted cost bounds",
+        "text": "Per class, random byte strings and reference encodings damaged by 1-4 offset-map-guided edits (length prefixes, varint continuation bits, tag numbers/sizes, markers; hostile lengths) are decoded under a Python-call and read-call budget linear in the input and an address-space cap; any exception outside SerialError/ValueError/OverflowError, any budget overrun, over-consumption, or a returned entity that cannot be re-encoded idempotently is a violation. Thorough adds 16 atheris processes with the same oracle inside the target.",
+        "design_ref": "DESIGN.md 2/C10",
+        "note": "Cost is counted (sys.setprofile call events, read calls), never timed; memory blow-ups surface as MemoryError through RLIMIT_AS=3 GiB.",
+    },
 }
